@@ -239,15 +239,32 @@ struct PrngWorld : World {
         }
     }
 
+    // Where inside a fetch the system source is asked - before the first output byte is written or after - is seen
+    // from the source's side: the output buffer still holds its fill pattern, or it does not.
+    struct DrawWatch { const uint8_t *out; size_t n; int before, after; };
+    static void on_draw(void *ctx)
+    {
+        DrawWatch *w = (DrawWatch *)ctx;
+        size_t k = std::min<size_t>(w->n, 32);
+        bool untouched = true;
+        for (size_t i = 0; i < k; ++i) if (w->out[i] != 0xA5) untouched = false;
+        if (untouched) w->before++; else w->after++;
+    }
+
     static void do_fetch(Ctx &c, const Op &op)
     {
         if (!c.live) return;
         size_t n = (size_t)(op.u(0) % 50000);
         arm(c, op.arg(1), op.arg(2));
         simrng_t before = c.rng;
-        GuardBuf out(n, (unsigned)n, false);
+        GuardBuf out(n, (unsigned)n, false); // filled with 0xA5
+        DrawWatch w{out.p, n, 0, 0};
+        c.rng.on_call = on_draw;
+        c.rng.on_call_ctx = &w;
         ascon_random_fetch(c.ram, out.p, n);
+        c.rng.on_call = nullptr;
         bool drew = c.rng.calls > before.calls;
+        bool drew_first = drew && w.before > 0; // entropy was requested before any output of this call existed
         bool due_at_start = n >= 1 && c.model_counter >= RESEED_LIMIT;
         if (c.record) {
             if (!out.intact()) c.run->violation("C12", "canary", "ascon_random_fetch", "output canary damaged");
@@ -258,12 +275,18 @@ struct PrngWorld : World {
                 if (!drew)
                     c.run->violation("C15", "reseed_after_limit", "ascon_random_fetch",
                                      fmt("%zu bytes produced since the last reseed and a fetch of %zu bytes made no call to the system source", c.model_counter, n));
+                else if (!drew_first)
+                    c.run->violation("C15", "reseed_after_limit", "ascon_random_fetch",
+                                     fmt("%zu bytes produced since the last reseed and a fetch of %zu bytes asked the system source only after it had produced output", c.model_counter, n));
             }
             c.run->state(fmt("fetch/%s/%d/%d", n == 0 ? "0" : n < 8 ? "<8" : n < 16 ? "<16" : n < RESEED_LIMIT ? "mid" : n == RESEED_LIMIT ? "=L" : ">L", drew, c.model_counter >= RESEED_LIMIT));
         }
-        if (drew) c.model_counter = 0;
-        c.model_counter += n;
-        c.events.push_back(Event{c.run->cur_op, 0, c.epoch, before.pos, c.rng.pos, Bytes(out.p, out.p + n), due_at_start});
+        // bytes produced since entropy was last drawn: a draw after the output (a generator may reseed as soon as the
+        // limit is reached instead of at the start of the next fetch) leaves none, a draw before it leaves this output
+        if (drew && w.after > 0) { c.model_counter = 0; if (c.record) c.run->probe("fetch.drew_after_output"); }
+        else if (drew) c.model_counter = n;
+        else c.model_counter += n;
+        c.events.push_back(Event{c.run->cur_op, 0, c.epoch, before.pos, c.rng.pos, Bytes(out.p, out.p + n), due_at_start && drew_first});
         count_rng_faults(c, before);
         disarm(c);
         check_rate_zero(c, "fetch");
